@@ -733,7 +733,7 @@ def foldCmds : List Nat → List Nat → List Cmd
 /-- the head that remains -/
 def foldTop : List Nat → List Nat → Option Nat
   | [h], [] => some h
-  | l :: r :: rest, i :: is => foldTop (rest ++ [i]) is
+  | _ :: _ :: rest, i :: is => foldTop (rest ++ [i]) is
   | _, _ => none
 
 theorem foldCmds_mem : ∀ (is q : List Nat) (c : Cmd), c ∈ foldCmds q is → ∃ i l r, c = mkMerge i l r ∧ i ∈ is := by
